@@ -209,21 +209,22 @@ type callRec struct {
 }
 
 type connEnv struct {
-	tr        *tracer
-	srv       *jsonrpc.RPCServer
-	ts        *httptest.Server
-	proxy     *faultProxy
-	cl        connClient
-	closer    jsonrpc.ClientCloser
-	mu        sync.Mutex
-	holds     map[int]chan struct{}
-	execs     sync.Map
-	calls     map[int]*callRec
-	wg        sync.WaitGroup
-	nextTok   int32
-	subBuf    int
-	prodGate  func(token, i int)
-	srvCancel context.CancelFunc
+	tr         *tracer
+	srv        *jsonrpc.RPCServer
+	ts         *httptest.Server
+	proxy      *faultProxy
+	cl         connClient
+	closer     jsonrpc.ClientCloser
+	mu         sync.Mutex
+	holds      map[int]chan struct{}
+	execs      sync.Map
+	calls      map[int]*callRec
+	wg         sync.WaitGroup
+	nextTok    int32
+	subBuf     int
+	prodGate   func(token, i int)
+	backoffMin time.Duration
+	srvCancel  context.CancelFunc
 }
 
 func (e *connEnv) execCount(token int) int {
@@ -291,6 +292,7 @@ func newConnEnv(o connOpts) *connEnv {
 	if o.backoffMin == 0 {
 		o.backoffMin, o.backoffMax = 5*time.Millisecond, 20*time.Millisecond
 	}
+	e.backoffMin = o.backoffMin
 	copts := []jsonrpc.Option{jsonrpc.WithReconnectBackoff(o.backoffMin, o.backoffMax), jsonrpc.WithPingInterval(o.ping), jsonrpc.WithTimeout(o.timeout)}
 	if o.noReconnect {
 		copts = append(copts, jsonrpc.WithNoReconnect())
@@ -454,6 +456,9 @@ func (e *connEnv) finish(name string, params map[string]interface{}) *connRun {
 	}
 	e.ts.CloseClientConnections()
 	go e.ts.Close()
+	if params != nil {
+		params["backoff_min_ns"] = int64(e.backoffMin)
+	}
 	r := &connRun{Scenario: name, Params: params, Events: e.tr.snapshot(), Accepts: e.proxy.acceptCount(), AllDone: allDone, CloserOK: closerOK}
 	e.mu.Lock()
 	for t := 1; t <= int(e.nextTok); t++ {
